@@ -32,6 +32,8 @@ pub struct Core {
     pub calls: usize,
     pub pend_calls: usize,
     pub pending_now: bool,
+    pub keep_data: bool,
+    pub wdata: Vec<Vec<u8>>, // data of each Write event, in order (when keep_data)
 }
 
 impl Core {
@@ -68,6 +70,7 @@ impl Core {
         self.fault()?;
         let n = self.limit(buf.len());
         if n == 0 {
+            self.log.push(Ev::Write { pos: self.pos, len: 0 });
             return Ok(0);
         }
         let start = usize::try_from(self.pos).map_err(|_| io::Error::new(io::ErrorKind::InvalidInput, "pos"))?;
@@ -83,6 +86,9 @@ impl Core {
         }
         self.data[start..end].copy_from_slice(&buf[..n]);
         self.log.push(Ev::Write { pos: self.pos, len: n });
+        if self.keep_data {
+            self.wdata.push(buf[..n].to_vec());
+        }
         self.pos += n as u64;
         Ok(n)
     }
